@@ -298,6 +298,11 @@ impl Replayer {
         if want.starts_with("err:rule") && got.starts_with("err:rule") {
             return true;
         }
+        // C17: a successor group cannot be joined without the old group's state of the right epoch -- which
+        // error says so is not part of the property
+        if want == "err:succ" && got.starts_with("err") {
+            return true;
+        }
         // outcomes of named deviations carry the finding's id as a suffix ("err:epoch:F14")
         if let Some((base, tag)) = want.rsplit_once(':') {
             if tag.starts_with('F') && tag[1..].chars().all(|c| c.is_ascii_digit()) && base == got {
@@ -312,6 +317,7 @@ impl Replayer {
             "Encrypt" => &["C05", "C01"],
             "Write" | "Load" => &["C06", "C15"],
             "JoinWelcome" => &["C07", "C01"],
+            "SuccCreate" | "SuccJoin" => &["C17"],
             "DeliverProposal" | "Propose" => &["C10", "C01"],
             _ => &["C01"],
         };
@@ -576,6 +582,65 @@ impl Replayer {
                     Err(e) => e,
                 }
             }
+            "SuccCreate" => {
+                let kind = s(&args, "kind").to_string();
+                let kp_msgs: Vec<MlsMessage> = args.get("kps").and_then(|k| k.as_array()).map(|a| a.iter().map(|i| self.w.kps[i.as_u64().unwrap() as usize - 1].msg.clone()).collect()).unwrap_or_default();
+                let g = self.w.parties[&p].group.as_ref().unwrap().clone();
+                let old_gid = g.group_id().to_vec();
+                let n = self.w.succ.len() + 1;
+                let r = match kind.as_str() {
+                    "reinit" => g.get_reinit_client(None, None).and_then(|rc| rc.commit(kp_msgs, Default::default(), None)),
+                    _ => g.branch(format!("verif-branch-{n}").into_bytes(), kp_msgs, None),
+                };
+                match r {
+                    Ok((ng, welcomes)) => {
+                        let exp_gid = if kind == "reinit" { b"verif-group-next".to_vec() } else { format!("verif-branch-{n}").into_bytes() };
+                        if ng.group_id() != exp_gid.as_slice() || ng.group_id() == old_gid.as_slice() {
+                            viol!(self, ["C17"], "succ-gid", "{p}: successor ({kind}) has an unexpected group id");
+                        }
+                        self.check_successor(&p, &ng, &out, None);
+                        let old_tree = self.w.parties[&p].group.as_ref().unwrap().export_tree().into_owned();
+                        let blank_leaf = old_tree.nodes().iter().step_by(2).any(|n| n.is_none());
+                        self.w.bump(&format!("succ_created:{kind}{}", if blank_leaf { ":old-tree-with-blank-leaf" } else { "" }));
+                        self.w.succ.push(SuccEntry { kind, group: ng, welcomes, joined: vec![] });
+                        "ok".into()
+                    }
+                    Err(e) => classify(&e),
+                }
+            }
+            "SuccJoin" => {
+                let si = u(&args, "succ") as usize - 1;
+                let how = s(&args, "how").to_string();
+                let kpi = u(&args, "kp") as usize;
+                let my_ref = self.w.kps[kpi - 1].store_id.clone();
+                let welcome = self.w.succ[si].welcomes.iter().find(|w| w.welcome_key_package_references().iter().any(|r| r.to_vec() == my_ref)).cloned();
+                let welcome = match welcome {
+                    Some(w) => w,
+                    None => {
+                        viol!(self, ["C17"], "succ-no-welcome", "{p}: the successor's creator produced no Welcome for key package {kpi}");
+                        return ("err:no-welcome".into(), false);
+                    }
+                };
+                let tree = if self.w.opts.ratchet_tree_ext { None } else { Some(self.w.succ[si].group.export_tree().into_owned()) };
+                let party = &self.w.parties[&p];
+                let r = match how.as_str() {
+                    "plain" => party.client.join_group(tree, &welcome, None),
+                    "reinit" => party.group.as_ref().unwrap().clone().get_reinit_client(None, None).and_then(|rc| rc.join(&welcome, tree, None)),
+                    _ => party.group.as_ref().unwrap().join_subgroup(&welcome, tree, None),
+                };
+                match r {
+                    Ok((ng, _)) => {
+                        if want == "ok" {
+                            self.check_successor(&p, &ng, &out, Some(si));
+                            let k = self.w.succ[si].kind.clone();
+                            self.w.bump(&format!("succ_joined:{k}"));
+                            self.w.succ[si].joined.push(ng);
+                        }
+                        "ok".into()
+                    }
+                    Err(e) => classify(&e),
+                }
+            }
             "Retire" => {
                 let party = self.w.parties.get_mut(&p).unwrap();
                 if let Some(g) = party.group.take() {
@@ -714,6 +779,46 @@ impl Replayer {
         }
         if epoch_changed && self.viols.is_empty() {
             self.epoch_oracles(&p);
+        }
+    }
+
+    /// C17: a successor group as created / joined: epoch 1, the specification's member set (by identity), the
+    /// announced extensions, and -- for a joiner -- the creator's epoch secret, tree and a working application channel.
+    fn check_successor(&mut self, p: &str, ng: &mls_rs::Group<Cfg>, out: &Value, joined_to: Option<usize>) {
+        if ng.current_epoch() != 1 {
+            viol!(self, ["C17"], "succ-epoch", "{p}: successor group is in epoch {}, expected 1", ng.current_epoch());
+        }
+        let mut have: Vec<String> = ng.roster().members_iter().map(|m| m.signing_identity.credential.as_basic().map(|b| String::from_utf8_lossy(&b.identifier).to_string()).unwrap_or_default()).collect();
+        have.sort();
+        let mut want: Vec<String> = out.get("members").and_then(|m| m.as_array()).map(|a| a.iter().map(|x| x.as_str().unwrap().to_string()).collect()).unwrap_or_default();
+        want.sort();
+        if have != want {
+            viol!(self, ["C17"], "succ-members", "{p}: successor group has members {have:?}, specification says {want:?}");
+        }
+        let ext_have = ng.context().extensions.iter().find(|e| e.extension_type == GCE_EXT).map(|e| u16::from_be_bytes([e.extension_data[0], e.extension_data[1]]) as u64).unwrap_or(0);
+        if ext_have != u(out, "ext") {
+            viol!(self, ["C17"], "succ-ext", "{p}: successor group context extension version {ext_have}, expected {}", u(out, "ext"));
+        }
+        if let Some(si) = joined_to {
+            let cg = &self.w.succ[si].group;
+            let same = cg.epoch_authenticator().ok().map(|a| a.as_bytes().to_vec()) == ng.epoch_authenticator().ok().map(|a| a.as_bytes().to_vec())
+                && cg.context() == ng.context()
+                && cg.export_tree().to_bytes().ok() == ng.export_tree().to_bytes().ok();
+            if !same {
+                viol!(self, ["C17", "C01"], "succ-agreement", "{p}: joined the successor group but does not share its creator's context, tree or epoch secret");
+            }
+            let mut sender = cg.clone();
+            let mut recv = ng.clone();
+            match sender.encrypt_application_message(b"succ-ping", vec![]) {
+                Ok(m) => match recv.process_incoming_message(m) {
+                    Ok(ReceivedMessage::ApplicationMessage(d)) if d.data() == b"succ-ping" => {}
+                    o => viol!(self, ["C17", "C01"], "succ-channel", "{p}: cannot read the successor creator's application message: {:?}", o.map(|_| ())),
+                },
+                Err(e) => viol!(self, ["C17"], "succ-channel", "successor creator cannot encrypt: {e:?}"),
+            }
+            self.w.bump("succ_join_checked");
+        } else {
+            self.w.bump("succ_create_checked");
         }
     }
 
